@@ -338,6 +338,9 @@ let run mode (line : string) : string =
   | "print_cmap" -> Drv_print.run "cmap" line
   | "print_sched" -> Drv_print.run "sched" line
   | "print_f64" -> Drv_print.run "f64" line
+  | "yaml_out" -> Drv_yaml.run "yaml_out" line
+  | "yaml_rt" -> Drv_yaml.run "yaml_rt" line
+  | "yaml_read" -> Drv_yaml.run "yaml_read" line
   | "toml_out" -> Drv_toml.run "toml_out" line
   | "toml_rt" -> Drv_toml.run "toml_rt" line
   | "toml_read" -> Drv_toml.run "toml_read" line
